@@ -149,6 +149,32 @@ def job_kernel(j, seed):
             return {'obligations': obs, 'candidates': cands, 'paths': 1}
         dense.append(dp[0].value)
     _compare(C, V, tag, obs, cands, case, p.value, dense, contents, arg_bufs, written)
+    # "the value the dense formula gives": besides agreeing with the dense kernel, every event value is the documented formula
+    # of its own coordinate and its pixel's geometry (in SI), whatever unit and integer / float element type the events have
+    from .c01_kinematics import _ops
+    o_ = _ops()
+    flat_out = list(p.value._a.flat)
+    for b in range(nb):
+        data = flat_out[b].data if hasattr(flat_out[b], 'coords') else flat_out[b]
+        if len(data) != len(contents[b]) or data.unit.dim != dense[b].unit.dim:
+            continue
+        for e in range(len(contents[b])):
+            if C.R.lift(data.values[e]).special:
+                continue
+            with C.oracle():
+                args_si = {}
+                for a in kinds:
+                    if a == data_arg:
+                        args_si[a] = contents[b].values[e] * C.R(contents[b].unit.scale_rat())
+                    else:
+                        pv = pix[a]
+                        i = b if grid is None else b % grid[1]
+                        args_si[a] = pv.values[i] * C.R(pv.unit.scale_rat())
+                expect = oracle(o_, **args_si)
+            ob = C.prove_zero(f'{tag}:bin {b} event {e}: value = documented formula of the event coordinate and the pixel geometry', data.values[e] * C.R(data.unit.scale_rat()) - expect)
+            obs.append(ob_dict(ob))
+            if ob.status == 'violated':
+                cands.append(('C06:formula', case, f'event value of bin {b} is not the documented formula'))
     # elem_unit / elem_dtype read the event buffer
     ob = C.prove(f'{tag}:elem_unit/elem_dtype of the binned operand are those of the events', C.B.const(utils.elem_unit(args[data_arg]) == contents[0].unit and utils.elem_dtype(args[data_arg]) == contents[0].dtype))
     obs.append(ob_dict(ob))
@@ -564,6 +590,53 @@ def replay_real(case):
             if bad:
                 break
         return {'reproduced': bool(bad), 'detail': '; '.join(bad[:2])}
+    if case['kind'] == 'kernel' and case.get('signature', '').startswith('C06:formula'):
+        # event values against the documented formula (mpmath), event coordinate in several units incl. the finest ones
+        import mpmath as mp
+        mp.mp.dps = 40
+        kname = case['kernel']
+        kinds, oracle, outunit, data_arg = kin.KERNELS[kname]
+        f = getattr(rt, kname)
+        o_ = kin.Ops(mp.sqrt, mp.sin, mp.pi, mp.mpf(float(sc.constants.h.value)), mp.mpf(float(sc.constants.m_n.value)))
+        si_rng = {'time': (1e-3, 9e-3), 'length': (10.0, 20.0), 'energy': (1.6e-22, 8e-21), 'wavelength': (1e-10, 5e-10), 'invlength': (1e10, 5e10), 'angle': (0.2, 2.0)}
+        fine = {'time': ['us', 'ns', 'ps'], 'length': ['m', 'mm', 'um'], 'energy': ['meV', 'ueV', 'neV'], 'wavelength': ['angstrom', 'pm', 'fm'], 'invlength': ['1/angstrom', '1/nm', '1/um'], 'angle': ['rad']}
+        dkind = kinds[data_arg]
+        for du in fine[dkind]:
+            kw, si = {}, {}
+            for a, k in kinds.items():
+                lo, hi = si_rng[k]
+                base_u = kin.KINDS[k][0]
+                if a == data_arg:
+                    v = sc.array(dims=['event'], values=rng.uniform(lo, hi, size=sum(sizes)), unit=base_u).to(unit=du)
+                    v = sc.array(dims=['event'], values=np.round(v.values), unit=du, dtype=dt) if dt.startswith('int') else v.astype(dt)
+                    begin = np.cumsum([0, *sizes[:-1]])
+                    kw[a] = sc.bins(begin=sc.array(dims=['spectrum'], values=begin, unit=None), dim='event', data=v)
+                    si[a] = [mp.mpf(float(x)) * mp.mpf(float(sc.scalar(1.0, unit=du).to(unit=base_u).value)) for x in v.values]
+                else:
+                    v = sc.array(dims=['spectrum'], values=rng.uniform(lo, hi, size=3), unit=base_u)
+                    kw[a] = v
+                    si[a] = [mp.mpf(float(x)) for x in v.values]
+            try:
+                out = f(**kw)
+            except Exception as e:  # noqa: BLE001
+                bad.append(f'{kname} on {dt} events in {du}: raises {type(e).__name__}')
+                continue
+            ev = 0
+            for b_, n_ in enumerate(sizes):
+                got = out['spectrum', b_].values
+                for e_ in range(n_):
+                    args_si = {a: (si[a][ev] if a == data_arg else si[a][b_]) for a in kinds}
+                    expect = oracle(o_, **args_si)
+                    base_out = {'angstrom': 'm', 'meV': 'J'}.get(outunit, '1/m') if isinstance(outunit, str) else '1/m'
+                    g = mp.mpf(float(got.values[e_])) * mp.mpf(float(sc.scalar(1.0, unit=got.unit).to(unit=base_out).value))
+                    if abs(g - expect) > abs(expect) * (1e-5 if dt == 'float32' else 1e-9):
+                        bad.append(f'{kname}: {dt} event {float(kw[data_arg].bins.constituents["data"].values[ev])!r} {du} in pixel {b_} gives {float(got.values[e_])!r} {got.unit}, formula {mp.nstr(expect, 12)} (SI)')
+                        break
+                    ev += 1
+                else:
+                    continue
+                break
+        return {'reproduced': bool(bad), 'detail': '; '.join(bad[:2])[:500]}
     if case['kind'] == 'kernel':
         kname = case['kernel']
         kinds, oracle, outunit, data_arg = kin.KERNELS[kname]
